@@ -28,6 +28,15 @@ def correspond(rep, tier, seed):
     corpus = control.corpus_scenarios()
     scs, failing = control.correspond_control(rep, tier, seed, extra=corpus)
     n_viol = control.oracle_control(rep, scs, "C14")
+    # "the values of a received SETTINGS govern everything the endpoint sends after its acknowledgement": the window deltas on
+    # all open streams and the frame size are judged on the wire (credit ledger of C02, hook-independent) over scenarios in
+    # which the peer changes SETTINGS_INITIAL_WINDOW_SIZE / MAX_FRAME_SIZE mid-stream, with bodies queued and partly written
+    from props.parts import sendflow
+    for k, prof in enumerate(("flow", "bp", "control") if tier == "quick" else ("flow", "bp", "control", "flow", "bp", "starve")):
+        more, _ = sendflow.gen_scenarios(seed * 577 + 3 + k, 60 if tier == "quick" else 1500, 110, prof)
+        n_viol += sendflow.oracle_sendflow(rep, more, "C02")
+        if prof == "control":
+            n_viol += control.oracle_control(rep, more, "C14")
     failing = control.split_assert_failures(rep, scs, failing)
     if failing and n_viol == 0:
         if not search(rep, tier, seed, reason="correspondence"):
